@@ -205,6 +205,54 @@ def c13(run=None):
         s = fc.S(q)
         sh = sorted((x, av) for (x, av) in s.stores if x.startswith('self.') and (av[1].startswith('global:') or (x == 'self._data')))
         fc.ob(q, 'fields_owned', not sh, str(sh))
+    # class-level mutable attributes are shared by every instance in the process: none of them may ever be mutated
+    _MUT = {'append', 'extend', 'insert', 'pop', 'remove', 'clear', 'update', 'setdefault', 'popitem', 'add', 'discard', 'sort', 'reverse',
+            '__setitem__', '__delitem__'}
+    shared = {}
+    for modname in PP_MODULES:
+        try:
+            mi = source.load_module(modname)
+        except Exception:
+            continue
+        for cname, ci in mi.classes.items():
+            for st in ci.node.body:
+                tgt = st.targets[0] if isinstance(st, ast.Assign) and len(st.targets) == 1 else (st.target if isinstance(st, ast.AnnAssign) else None)
+                val = getattr(st, 'value', None)
+                if isinstance(tgt, ast.Name) and isinstance(val, (ast.Dict, ast.List, ast.Set, ast.ListComp, ast.DictComp, ast.SetComp, ast.Call)):
+                    shared[tgt.id] = f'{ci.qualname}.{tgt.id}'
+    writers = {name: [] for name in shared}
+    for q in pp_functions(an):
+        fi = an.funcs[q]
+        for n in ast.walk(fi.node):
+            def attr_of(e):
+                return e.attr if isinstance(e, ast.Attribute) and e.attr in shared else None
+            hit = None
+            if isinstance(n, (ast.Assign, ast.AugAssign, ast.Delete)):
+                tgts = n.targets if isinstance(n, (ast.Assign, ast.Delete)) else [n.target]
+                for t_ in tgts:
+                    if isinstance(t_, ast.Subscript) and attr_of(t_.value):
+                        hit = attr_of(t_.value)
+                    if isinstance(n, ast.AugAssign) and attr_of(t_):
+                        hit = attr_of(t_)
+                    if isinstance(t_, ast.Attribute) and t_.attr in shared and not (isinstance(t_.value, ast.Name) and t_.value.id == 'self'):
+                        hit = t_.attr          # Class.X = ... / cls.X = ... / type(self).X = ...
+            if isinstance(n, ast.Call) and isinstance(n.func, ast.Attribute) and n.func.attr in _MUT and attr_of(n.func.value):
+                hit = attr_of(n.func.value)
+            if hit:
+                writers[hit].append(f'{q}:{getattr(n, "lineno", "?")}')
+    # (one obligation per class, so that a newly introduced shared attribute fails an obligation that exists on the baseline tree)
+    classes = {}
+    for modname in PP_MODULES:
+        try:
+            for cname, ci in source.load_module(modname).classes.items():
+                classes[ci.qualname] = []
+        except Exception:
+            pass
+    for name, qual in sorted(shared.items()):
+        if writers[name]:
+            classes.setdefault(qual.rsplit('.', 1)[0], []).append(f'{name} mutated at {writers[name][:3]}')
+    for cq, bad in sorted(classes.items()):
+        fc.ob(cq, 'class_attributes_never_mutated', not bad, f'class-level mutable attribute(s): {bad}')
     # no mutable default arguments, no function attributes used as caches
     for q in pp_functions(an):
         fi = an.funcs[q]
